@@ -938,16 +938,18 @@ func TestC16_Probes(t *testing.T) {
 	// two keys whose invalid bytes collapse to the same metrics label
 	{
 		c.Case()
-		for _, k := range []string{"\xfe\xfe", "\xff\xfe"} {
+		// pairs that a lossy or an escaping label function could map to one label
+		collide := []string{"\xfe\xfe", "\xff\xfe", "a\xff", "a\xfe", "\xfe", `"\xfe"`, `\xfe`, "\"q", `"\"q"`, "\ufffd", "\xff"}
+		for _, k := range collide {
 			g.ctl.Do("SET", k, "a", "POINT", "1", "1")
 		}
 		p := scrapeMetrics(g.metricsAddr)
-		for _, k := range []string{"\xfe\xfe", "\xff\xfe"} {
+		for _, k := range collide {
 			g.ctl.Do("DROP", k)
 		}
 		switch {
 		case strings.Contains(p, "was collected before with the same name and label values"):
-			what := "SET \"\\xfe\\xfe\" a POINT 1 1 and SET \"\\xff\\xfe\" a POINT 1 1 (two legal keys that differ only in bytes that are not valid UTF-8) get the same label \"\\ufffd\" in Collect (metrics.go, strings.ToValidUTF8); the registry then answers EVERY GET /metrics with 500 until one of the collections is dropped, also after a restart: " + clip(p, 300)
+			what := "SET \"\\xfe\\xfe\" a POINT 1 1 and SET \"\\xff\\xfe\" a POINT 1 1 (and nine more keys that differ only in invalid UTF-8 bytes, quoting or escaping) must keep distinct metrics labels; two of them got the same label in Collect (metrics.go) and the registry answers EVERY GET /metrics with 500 until one of the collections is dropped, also after a restart: " + clip(p, 300)
 			if ev.KnownActive(metricsDupID) {
 				c.Known(metricsDupID, what)
 			} else {
